@@ -31,7 +31,8 @@ RULE = ("case = (symmetry [all 7], vector rank 1-3, map kind full/spectator/sum-
         "block density, sector dimension 2-300 (mostly >= 10), operator norm 0.1-30, start vector kind random/partial/"
         "eigvec/near-invariant/3-eigvec combination/zero, solver expmv|eigs|lin_solver and its parameters: t real/"
         "imaginary/complex with |t| 1e-4..1e2 and 0, tol 1e-6/1e-10/1e-12, ncv 1-30 and r, r+1, r+3 around the reachable "
-        "dimension r, normalize, hermitian flag, which, k); distinct = hash of the structural part (no values); "
+        "dimension r, normalize, hermitian flag, which, k, norm scale of the start vector / right-hand side 1e-30..1e30); "
+        "distinct = hash of the structural part (no values); "
         "non-trivial = sector dimension >= 2 and the solver result was compared with the dense oracle")
 ASSUMPTIONS = ["scipy.linalg.expm / numpy.linalg eigh, eig, solve, svd on matrices of dimension <= 300 are the truth "
                "(expm cross-checked against the spectral formula; disagreeing cases are not judged)",
@@ -43,6 +44,14 @@ ASSUMPTIONS = ["scipy.linalg.expm / numpy.linalg eigh, eig, solve, svd on matric
                "eigs: k <= dimension of the reachable Krylov space (the docstring only demands k < ncv); "
                "lin_solver: v0 is not already the exact solution (the solver rejects that with YastnError)",
                "hermitian=True is passed only for maps whose dense matrix is exactly Hermitian",
+               "norm scales: start vectors / right-hand sides are multiplied by c in {1e-30,1e-12,1e-6,1e6,1e9,1e13,1e16,1e30} (40 % of eigs "
+               "and lin_solver cases, 60 % of near-invariant eigs starts, 30 % of expmv cases with growth*c inside the overflow-free range); "
+               "the dense oracle is scale free, and in addition eigs(f, c v0) is compared with eigs(f, v0) (values; residuals) and "
+               "lin_solver(f, c b, c v0) with c lin_solver(f, b, v0).  Two runs differ by the rounding of c v0: an incomplete Krylov space "
+               "that passed a small sub-diagonal h may differ by 100 eps ||A||^2/h, non-normal eigenvalues are compared to 1e-5 only "
+               "(conjugate pairs of real maps tie); a complete space must agree to 1e-10",
+               "the default of `which` is part of the documented signature (autofunction yastn.eigs: which='SR'; dmrg_ relies on it): eigs "
+               "called without `which` must return what which='SR' returns, checked on positive-dominant spectra (map shifted by 1.5||A||)",
                "'exact result representable' is read as: spectral growth of exp(tA) and the numerical abscissa of tA (bound for every "
                "Krylov projection) below exp(300); beyond ~1e154 plain 2-norms overflow.  Such cases are counted (expmv_excluded_overflow), "
                "not judged",
@@ -58,7 +67,7 @@ GROWTH_MAX = 300.0
 
 def plan(tier):
     if tier == "thorough":
-        return {"cases": 32000, "shards": 16, "budget_s": 780}
+        return {"cases": 24000, "shards": 16, "budget_s": 700}
     return {"cases": 2000, "shards": 8, "budget_s": 50}
 
 
@@ -72,7 +81,10 @@ def floors(tier):
             "reach:krylov_happy": 5 * k, "reach:lanczos": 20 * k, "reach:arnoldi": 20 * k,
             "expmv_substepped": 20 * k, "expmv_zero_vector_rejected": 2 * k, "expmv_t0": 3 * k,
             "eigs_zero_vector_rejected": 1 * k, "eigs_ritz_reference_compared": 20 * k,
-            "eigs_variational_vs_start_checked": 20 * k, "expmv_normalized_judged": 50 * k}
+            "eigs_variational_vs_start_checked": 20 * k, "expmv_normalized_judged": 50 * k,
+            "eigs_scale_invariance_checked": 30 * k, "eigs_scale_invariance_checked:complete": 20 * k,
+            "eigs_scale_invariance_checked:near-invariant:complete": 3 * k, "eigs_default_which_discriminating": 10 * k,
+            "lin_solver_linearity_checked": 20 * k}
 
 
 # ------------------------------------------------------------------ line reach (sys.monitoring)
@@ -972,10 +984,10 @@ def case_eigs(ctx, P, rng, nprng):
             if vkind == "near":
                 ctx.count("eigs_scale_invariance_checked:near-invariant")
             unit = max(1.0, P.nrm)
-            dv = float(np.max(np.abs(val - val1)))
-            if not hflag and np.isrealobj(P.M):
-                # real non-symmetric map: eigenvalues / Ritz values come in conjugate pairs, which tie in every `which` criterion
-                dv = float(np.max(np.minimum(np.abs(val - val1), np.abs(val - np.conj(val1)))))
+            # `which` orders by a criterion (real part / magnitude); values that tie in it (conjugate pairs of real maps, sums of
+            # local operators with equal real parts) may be selected in any order, so the *criterion values* are compared
+            crit_ = {"LM": np.abs, "SM": np.abs, "LR": np.real, "SR": np.real}[which]
+            dv = float(np.max(np.abs(crit_(val) - crit_(val1))))
             lo = min(min(ress), min(ress1))
             complete = bool(obs["happy"]) or premise is not None
             if complete:
@@ -993,7 +1005,7 @@ def case_eigs(ctx, P, rng, nprng):
             if not (ok_v and ok_r):
                 ctx.violation("value:eigs:depends-on-norm-of-v0" + (":near-invariant-start" if vkind == "near" else ""),
                               f"eigs(f, c*v0) != eigs(f, v0) for c={c:g} (which={which}, k={k}, ncv={ncv}, hermitian={hflag}, start={vkind}): "
-                              f"values {val.tolist()} vs {val1.tolist()} (|diff|={dv:.3e}), residuals {ress} vs {ress1} (||A||={P.nrm:.3g})",
+                              f"values {val.tolist()} vs {val1.tolist()} (|diff of the `which` criterion|={dv:.3e}), residuals {ress} vs {ress1} (||A||={P.nrm:.3g})",
                               dict(wit, values_scaled=[complex(x) for x in val], values_unit=[complex(x) for x in val1],
                                    residuals_scaled=ress, residuals_unit=ress1))
     # ---- documented default: eigs(f, v0, k=1, which='SR', ...) -- calling without `which` is calling with 'SR'
